@@ -13,7 +13,7 @@ pub fn def() -> CheckDef {
         bounds_quick: "one builder call from an arbitrary state (every state is reachable through the public fields, so one step covers histories): states with <=3 nodes, <=2 hyperedges (arities <=2), <=2 pending pairs, interfaces <=1..2; identifier arguments enumerated including duplicates and one out-of-range value; labels symbolic",
         bounds_thorough: "states with <=4 nodes, <=3 hyperedges; deletion lists of length <=3",
         jobs,
-        budget_s: (120, 1500),
+        budget_s: (90, 1500),
     }
 }
 
